@@ -93,7 +93,9 @@ const STRS: [&str; 13] = [
 ];
 
 /// (name, gate) — gate = shape label closed by an open known finding
-const HOSTILE_FNS: [(&str, &str); 40] = [
+const HOSTILE_FNS: [(&str, &str); 46] = [
+    // look-alikes of the runtime's pure helpers (a user function stays a user function)
+    ("log_to_string", ""), ("x_to_json", ""), ("to_string", ""), ("to_json", ""), ("string_length", ""), ("my_escape_string", ""),
     ("len", ""), ("append", ""), ("panic", ""), ("println", ""), ("print", ""), ("nil", ""), ("any", ""),
     ("fmt", ""), ("cap", ""), ("copy", ""), ("new", ""), ("make", ""), ("error", ""), ("int", ""),
     ("byte", ""), ("rune", ""), ("iota", ""), ("var", ""), ("func", ""), ("chan", ""), ("map", ""),
@@ -622,7 +624,14 @@ impl<'a, 'd> Gen<'a, 'd> {
                 let np = self.d.below(3);
                 let params: Vec<Ty> = (0..np).map(|_| self.sig_ty()).collect();
                 let ret = self.sig_ty();
-                let f = self.gen_method(impl_idx, format!("im{a}x{m}"), &ty, &params, &ret);
+                let mname = if self.cfg.hostile_names && self.d.chance(120) {
+                    const IM: [&str; 6] = ["to_string", "to_json", "len", "new", "show_to_string", "init"];
+                    let n = IM[self.d.below(IM.len())];
+                    if self.used_names.insert(format!("inherent:{a}:{n}")) { self.label("names:hostile-method"); n.to_string() } else { format!("im{a}x{m}") }
+                } else {
+                    format!("im{a}x{m}")
+                };
+                let f = self.gen_method(impl_idx, mname, &ty, &params, &ret);
                 fs.push(f);
                 // a later method of the block may call an earlier one
                 self.usable_methods.push(f);
